@@ -1,0 +1,44 @@
+//! Verification hooks. Compiled only with `--cfg compio_verif`; every hook is a
+//! no-op until a harness calls [`block`].
+
+use std::sync::atomic::{AtomicBool, AtomicU64, Ordering};
+
+const POINTS: usize = 16;
+static BLOCKED: [AtomicBool; POINTS] = [const { AtomicBool::new(false) }; POINTS];
+static ARRIVED: [AtomicU64; POINTS] = [const { AtomicU64::new(0) }; POINTS];
+
+/// `Remote::schedule`: the task was found unscheduled, nothing is reserved or
+/// queued yet.
+pub const REMOTE_BEFORE_RESERVE: usize = 1;
+/// `Remote::schedule`: a push onto the full cross-thread queue failed and the
+/// driver has been woken; the push is about to be retried.
+pub const REMOTE_SPIN_RETRY: usize = 2;
+/// `Remote::schedule`: the id is queued, the driver is about to be woken.
+pub const REMOTE_PUSHED: usize = 3;
+
+/// A named point of the code; a thread reaching it waits while the point is blocked.
+pub fn sched_point(id: usize) {
+    if id >= POINTS {
+        return;
+    }
+    ARRIVED[id].fetch_add(1, Ordering::SeqCst);
+    while BLOCKED[id].load(Ordering::SeqCst) {
+        std::thread::yield_now();
+    }
+}
+
+/// Block (or unblock) a scheduling point.
+pub fn block(id: usize, on: bool) {
+    if id < POINTS {
+        BLOCKED[id].store(on, Ordering::SeqCst);
+    }
+}
+
+/// How many times the point was reached.
+pub fn arrived(id: usize) -> u64 {
+    if id < POINTS {
+        ARRIVED[id].load(Ordering::SeqCst)
+    } else {
+        0
+    }
+}
